@@ -20,6 +20,8 @@ type Schedule struct {
 	EOFWithData bool   `json:"eof_with_data"`   // last bytes returned together with io.EOF
 	FailAt      int    `json:"fail_at"`         // -1: never; else offset at which a non-EOF error is returned
 	FailSticky  bool   `json:"fail_sticky,omitempty"`
+	FailKind    int    `json:"fail_kind,omitempty"`      // which error value the failing Read returns (FailErrors)
+	FailData    bool   `json:"fail_with_data,omitempty"` // the error comes together with the last bytes before FailAt
 }
 
 // ErrInjected is the sentinel non-EOF read/write error.
@@ -43,6 +45,12 @@ type SimReader struct {
 	FaultHit bool
 }
 
+// FailErrors are the error values an injected reader failure may carry: what a front-end does must not depend
+// on which non-EOF error it is (io.ErrUnexpectedEOF is what a truncated gzip stream or a short http body gives).
+var FailErrors = []error{ErrInjected, io.ErrUnexpectedEOF, io.ErrClosedPipe, fmt.Errorf("verif: wrapped: %w", io.ErrUnexpectedEOF), io.ErrNoProgress}
+
+func (s *Schedule) failErr() error { return FailErrors[s.FailKind%len(FailErrors)] }
+
 func NewSimReader(data []byte, s *Schedule) *SimReader {
 	return &SimReader{data: data, s: s, zeroDone: map[int]bool{}, Budget: 4*len(data) + 64}
 }
@@ -56,7 +64,7 @@ func (r *SimReader) Read(p []byte) (int, error) {
 	if r.s.FailAt >= 0 && r.pos >= r.s.FailAt && (!r.failed || r.s.FailSticky) {
 		r.failed = true
 		r.FaultHit = true
-		return 0, ErrInjected
+		return 0, r.s.failErr()
 	}
 	if r.pos >= len(r.data) {
 		r.eofSent = true
@@ -90,6 +98,11 @@ func (r *SimReader) Read(p []byte) (int, error) {
 	}
 	n := copy(p, r.data[r.pos:end])
 	r.pos = end
+	if r.s.FailData && r.s.FailAt >= 0 && r.pos == r.s.FailAt && !r.failed && n > 0 {
+		r.failed = true
+		r.FaultHit = true
+		return n, r.s.failErr()
+	}
 	if r.pos < len(r.data) {
 		r.Bounds = append(r.Bounds, r.pos)
 		return n, nil
@@ -185,6 +198,9 @@ func dedup(a []int) []int {
 }
 
 func (s *Schedule) String() string {
+	if s.FailAt >= 0 {
+		return fmt.Sprintf("%s cuts=%v every=%d zeros=%v eofWithData=%v failAt=%d failKind=%d failWithData=%v", s.Style, s.Cuts, s.Every, s.Zeros, s.EOFWithData, s.FailAt, s.FailKind, s.FailData)
+	}
 	return fmt.Sprintf("%s cuts=%v every=%d zeros=%v eofWithData=%v failAt=%d", s.Style, s.Cuts, s.Every, s.Zeros, s.EOFWithData, s.FailAt)
 }
 
@@ -204,6 +220,7 @@ type SimWriter struct {
 	FailCall int // -1: never; else 0-based index of the Write call that fails (and all later ones if Sticky)
 	Sticky   bool
 	Short    bool // the failing call accepts the first half of its bytes and reports that count with the error
+	Full     bool // the failing call accepts all its bytes and reports the full count together with the error
 	FaultHit bool
 }
 
@@ -214,6 +231,10 @@ func (w *SimWriter) Write(p []byte) (int, error) {
 	w.Calls = append(w.Calls, WriteRec{Off: len(w.Buf), Len: len(p)})
 	if w.FailCall >= 0 && (k == w.FailCall || (w.Sticky && k > w.FailCall)) {
 		w.FaultHit = true
+		if w.Full {
+			w.Buf = append(w.Buf, p...)
+			return len(p), ErrInjected
+		}
 		if w.Short && len(p) > 1 {
 			w.Buf = append(w.Buf, p[:len(p)/2]...)
 			return len(p) / 2, ErrInjected
